@@ -215,6 +215,8 @@ class ModelParallel:
     scheduler_factory = None
 
     def __init__(self, n_jobs=1, **kw):
+        if n_jobs == 0:
+            raise ValueError("n_jobs == 0 in Parallel has no meaning")      # as joblib does
         self.n_jobs = n_jobs
 
     def __call__(self, iterable):
